@@ -30,9 +30,9 @@ try:
             txt = open(demo_sh).read()
             arg = wt
             m = re.search(r"\$\{1:-[^\n]*csvq-bin", txt)
+            rcb, outb = sh(f"go build -o {wt}/csvq-bin .", cwd=wt)
             if m:
-                # the script takes the CLI binary, not the tree: build it from the tree under test
-                rcb, outb = sh(f"go build -o {wt}/csvq-bin .", cwd=wt)
+                # the script takes the CLI binary, not the tree
                 arg = f"{wt}/csvq-bin"
             rc, out = sh(f"SEED_TREE={wt} ROOT={wt} CSVQ_SRC={wt} SRC={wt} TREE={wt} REPO={wt} CSVQ={wt}/csvq-bin sh {demo_sh} {arg}", cwd=wt)
             sh(f"rm -f {wt}/csvq-bin")
